@@ -529,6 +529,111 @@ func judgeBarsRows(s *Spec, a *Agg, body string) *finding {
 	return nil
 }
 
+// judgeReduceRows: same idea for `reduce` in its table form (at least one group, or --table): when every column name, every
+// group value and every accumulator value is a plain token and everything fits (--num rows, --cols 10), the header must
+// name the group columns then the accumulators, and the rows must be exactly the reference groups with their values.
+// Row order is C13's business.
+func reduceRowsApplicable(s *Spec, a *Agg) bool {
+	if s.Cmd != "reduce" || s.Red == nil || a.reduce == nil {
+		return false
+	}
+	rd := s.Red
+	if len(rd.Groups) == 0 && !rd.Table {
+		return false
+	}
+	if len(rd.Groups)+len(rd.Accs) > 10 || len(a.reduce) > s.N || len(a.reduce) == 0 {
+		return false
+	}
+	for _, g := range rd.Groups {
+		if !plainKeyRe.MatchString(g.Name) {
+			return false
+		}
+	}
+	for _, ac := range rd.Accs {
+		if !plainKeyRe.MatchString(ac.Name) {
+			return false
+		}
+	}
+	for gk, vals := range a.reduce {
+		if len(rd.Groups) > 0 && !allPlainAny(a.reduceParts[gk]) {
+			return false
+		}
+		if !allPlainAny(vals) {
+			return false
+		}
+	}
+	return true
+}
+
+func allPlainAny(xs []string) bool {
+	for _, x := range xs {
+		if !plainKeyRe.MatchString(x) {
+			return false
+		}
+	}
+	return true
+}
+
+func judgeReduceRows(s *Spec, a *Agg, body string) *finding {
+	if !reduceRowsApplicable(s, a) {
+		return nil
+	}
+	rd := s.Red
+	bad := func(f string, args ...any) *finding {
+		return &finding{"snapshot-vs-reference", fmt.Sprintf(f, args...) + "; screen " + run.Q(body)}
+	}
+	lines := strings.Split(strings.TrimSuffix(body, "\n"), "\n")
+	lines = lines[:len(lines)-1] // summary
+	if len(lines) == 0 {
+		return bad("reduce screen has no header")
+	}
+	ng, width := len(rd.Groups), len(rd.Groups)+len(rd.Accs)
+	hdr := strings.Fields(lines[0])
+	if len(hdr) != width {
+		return bad("reduce header has %d names, expected %d", len(hdr), width)
+	}
+	for i, g := range rd.Groups {
+		if hdr[i] != g.Name {
+			return bad("header cell %d is %s, group was named %s", i, run.Q(hdr[i]), run.Q(g.Name))
+		}
+	}
+	for i, ac := range rd.Accs {
+		if hdr[ng+i] != ac.Name {
+			return bad("header cell %d is %s, accumulator was named %s", ng+i, run.Q(hdr[ng+i]), run.Q(ac.Name))
+		}
+	}
+	seen := map[string]bool{}
+	for _, ln := range lines[1:] {
+		f := strings.Fields(ln)
+		if len(f) == 0 {
+			continue
+		}
+		if len(f) != width {
+			return bad("reduce row %s has %d cells, header has %d", run.Q(ln), len(f), width)
+		}
+		gk := strings.Join(f[:ng], "\x00")
+		if seen[gk] {
+			return bad("group %q is on the screen twice", f[:ng])
+		}
+		seen[gk] = true
+		w, ok := a.reduce[gk]
+		if !ok {
+			return bad("screen has group %q that no input line produced", f[:ng])
+		}
+		for i := range w {
+			if f[ng+i] != w[i] {
+				return bad("group %q accumulator %s: screen %s, reference %s", f[:ng], rd.Accs[i].col(), run.Q(f[ng+i]), run.Q(w[i]))
+			}
+		}
+	}
+	for _, gk := range sortedKeys(a.reduce) {
+		if !seen[gk] {
+			return bad("group %q is missing from the screen", a.reduceParts[gk])
+		}
+	}
+	return nil
+}
+
 // judgeTableGrid: same idea for `table`: plain keys, everything fits (--num / --cols),
 // then header + rows (+ totals) must hold exactly the reference cells.
 func tableGridApplicable(s *Spec, a *Agg) bool {
